@@ -132,6 +132,7 @@ type RStep struct {
 	Fl   int   `json:"fl"`
 	P    RPkt  `json:"p"`
 	EOF  bool  `json:"eof,omitempty"`
+	Hold bool  `json:"hold,omitempty"` // park this request's handler at its first logger call while the following steps of OTHER connections run
 	Pws  []BS  `json:"pws,omitempty"` // passwords carried by this step (labels for C18)
 }
 type RConn struct {
@@ -144,6 +145,7 @@ type RScen struct {
 	Conns []RConn `json:"conns"`
 	Steps []RStep `json:"steps"`
 	Iso   bool    `json:"iso,omitempty"`   // re-run every session alone afterwards (C09)
+	Overlap bool  `json:"overlap,omitempty"` // requests of different connections are in flight at the same time
 	LogOn bool    `json:"log,omitempty"`   // record logger calls (C18)
 	Level int     `json:"level,omitempty"` // unused by CapLog (all calls are recorded)
 }
@@ -563,6 +565,9 @@ func (r *refRun) feed(st *refConnState, s *RStep, i int) bool {
 	}
 	r.rec.Emit(E{"e": "feed", "c": st.c, "i": i, "h": B(hdr), "b": B(wire), "cb": B(body), "sk": B(st.key), "pws": pws})
 	st.conn.Feed(append(append([]byte{}, hdr...), wire...))
+	if s.Hold {
+		return false // the caller waits for the gate, not for quiescence
+	}
 	return st.conn.WaitQuiesce()
 }
 
@@ -589,6 +594,11 @@ func (r *refRun) runScenario(sc *RScen) {
 	r.log.Tokens = toks
 	base := ReadG4()
 	r.rec.Emit(E{"e": "reset", "sc": sc.ID, "cfg": sc.Cfg})
+	if sc.Overlap {
+		r.rec.Emit(E{"e": "overlap"})
+	}
+	var held *refConnState
+	var release chan struct{}
 	conns := map[int]*refConnState{}
 	addr := map[int]string{}
 	for _, c := range sc.Conns {
@@ -606,7 +616,34 @@ func (r *refRun) runScenario(sc *RScen) {
 			st = r.open(s.C, a, nil)
 			conns[s.C] = st
 		}
-		r.feed(st, s, i+1)
+		if held != nil && st == held {
+			// the held connection is needed again: let its handler finish first
+			close(release)
+			held.conn.WaitQuiesce()
+			held = nil
+		}
+		if s.Hold && held == nil {
+			parked, rel := r.log.ArmGate()
+			r.feed(st, s, i+1)
+			quiet := make(chan struct{})
+			go func() { st.conn.WaitQuiesce(); close(quiet) }()
+			select {
+			case <-parked:
+				held, release = st, rel
+				r.rec.Emit(E{"e": "held", "c": st.c})
+			case <-quiet:
+				r.log.Disarm() // this path makes no logger call: nothing to hold
+			}
+			continue
+		}
+		s2 := *s
+		s2.Hold = false
+		r.feed(st, &s2, i+1)
+	}
+	if held != nil {
+		close(release)
+		held.conn.WaitQuiesce()
+		held = nil
 	}
 	for _, c := range sc.Conns {
 		st := conns[c.C]
